@@ -2,7 +2,7 @@ import vlib
 
 CFG = dict(
     imports=["From Verif.C45 Require Import Model Spec."],
-    checker="check_case",
+    checker="check_any",
     n=dict(quick=300, thorough=6000),
     shard=50,
     rule="insert/remove/lookup/len histories (8-37 ops) over small pools of node names (incl. prefixes of each other, the empty "
